@@ -504,8 +504,16 @@ def _start_body(header):
         b.locals["_0"] = b.ret
         return b
     # const NAME: TYPE =
-    m = re.match(r"^(?:const|static(?: mut)?) (.*?): (.*) =$", header, re.S)
-    name = m.group(1) if m else header
+    impls = []
+
+    def hide(mm):
+        impls.append(mm.group(0))
+        return "\x00%d\x00" % (len(impls) - 1)
+
+    hidden = re.sub(r"<impl at [^>]*>", hide, header)
+    m = re.match(r"^(?:const|static(?: mut)?) (.*?): (.*) =$", hidden, re.S)
+    restore = lambda t: re.sub(r"\x00(\d+)\x00", lambda mm: impls[int(mm.group(1))], t)
+    name = restore(m.group(1)) if m else header
     b = Body(name, header)
-    b.ret = m.group(2) if m else None
+    b.ret = restore(m.group(2)) if m else None
     return b
